@@ -97,7 +97,7 @@ type uxReqObs struct {
 }
 
 type uxObs struct {
-	Chain [][]uxTx   `json:"chain"`
+	Cid   int        `json:"cid"`
 	Best  int        `json:"best"`
 	Pc    int        `json:"pc"`
 	H     int        `json:"h"`
@@ -135,7 +135,14 @@ type uxPathOut struct {
 	InitObs uxObs           `json:"init_obs"`
 	Steps   []uxStepOut     `json:"steps"`
 	Error   string          `json:"error,omitempty"`
+	// the chain table of the run (what obs.cid indexes), so that a saved
+	// trace can be replayed and judged on its own
+	Chains [][][]uxTx `json:"chains,omitempty"`
 }
+
+// uxTable is the chain table of this run (VERIF_UX_CHAINS, the same
+// description UtxoScanChains.tla is generated from).
+var uxTable [][][]uxTx
 
 // ---------------------------------------------------------------------------
 // concrete chain built from the abstract one
@@ -314,10 +321,14 @@ type uxReqSt struct {
 	tx, idx, start int
 	req            *GetUtxoRequest
 	ans            [][]int
+	// a caller goroutine that is still inside Result() (only when Result
+	// did not return although quit is closed)
+	pending chan []int
 }
 
 type uxEnv struct {
 	cd      *uxChainData
+	cid     int
 	s       *UtxoScanner
 	best    int32
 	ev      chan uxEvent
@@ -561,12 +572,17 @@ func (e *uxEnv) cleanup() string {
 	}
 	// a batch manager that is just now entering a gate may have seen drain=0
 	deadline := time.After(uxBound())
+	tick := time.NewTicker(200 * time.Microsecond)
+	defer tick.Stop()
 	for {
 		select {
 		case <-e.stopDone:
 			return ""
 		case <-e.ev:
 		case e.rel <- uxRelease{fail: true}:
+		case <-tick.C:
+			// what Stop does every 50 ms, sooner (not part of any judged step)
+			e.s.cv.Signal()
 		case <-deadline:
 			return "cleanup: Stop did not return\n" + uxDump()
 		}
@@ -576,6 +592,23 @@ func (e *uxEnv) cleanup() string {
 func (e *uxEnv) collect() {
 	for _, r := range e.reqs {
 		if r.req == nil {
+			continue
+		}
+		if r.pending != nil {
+			// the caller goroutine owns the channel; give it a moment
+			// when something is there for it to take
+			var t <-chan time.Time
+			if len(r.req.resultChan) > 0 {
+				t = time.After(2 * time.Second)
+			} else {
+				t = time.After(20 * time.Millisecond)
+			}
+			select {
+			case x := <-r.pending:
+				r.ans = append(r.ans, x)
+				r.pending = nil
+			case <-t:
+			}
 			continue
 		}
 		for len(r.req.resultChan) > 0 {
@@ -594,7 +627,7 @@ func (e *uxEnv) collect() {
 }
 
 func (e *uxEnv) obs() uxObs {
-	o := uxObs{Chain: e.cd.desc, Best: int(atomic.LoadInt32(&e.best)), Pc: e.pc, H: e.h,
+	o := uxObs{Cid: e.cid, Best: int(atomic.LoadInt32(&e.best)), Pc: e.pc, H: e.h,
 		Reqs: make([]uxReqObs, 0, len(e.reqs))}
 	if e.pc == uxBest0 || e.pc == uxTail || e.pc == uxWake || e.pc == uxIdle || e.pc >= uxExit {
 		o.H = 0
@@ -669,7 +702,16 @@ func (e *uxEnv) release(want uxAct) (uxAct, string) {
 
 func uxRunPath(p *uxPathIn) (out uxPathOut) {
 	out.ID = p.ID
-	cd, err := uxBuildChain(p.InitObs.Chain)
+	if atomic.LoadInt32(&uxHangs) >= 48 {
+		out.Error = "not run: too many hangs on earlier paths (see their dumps)"
+		return out
+	}
+	if p.InitObs.Cid < 1 || p.InitObs.Cid > len(uxTable) {
+		out.Error = fmt.Sprintf("chain %d is not in VERIF_UX_CHAINS", p.InitObs.Cid)
+		return out
+	}
+	out.Chains = uxTable
+	cd, err := uxBuildChain(uxTable[p.InitObs.Cid-1])
 	if err != nil {
 		out.Error = "chain: " + err.Error()
 		return out
@@ -679,6 +721,7 @@ func uxRunPath(p *uxPathIn) (out uxPathOut) {
 		return out
 	}
 	e, d := uxNewEnv(cd, p.InitObs.Best)
+	e.cid = p.InitObs.Cid
 	defer func() {
 		if c := e.cleanup(); c != "" && out.Error == "" {
 			out.Error = c
@@ -738,8 +781,19 @@ func uxRunPath(p *uxPathIn) (out uxPathOut) {
 			// every caller still waiting in Result() leaves through quit
 			for _, r := range e.reqs {
 				if r.req != nil && len(r.ans) == 0 {
-					rep, err := r.req.Result(nil)
-					r.ans = append(r.ans, cd.project(rep, err))
+					ch := make(chan []int, 1)
+					go func(q *GetUtxoRequest) {
+						rep, err := q.Result(nil)
+						ch <- cd.project(rep, err)
+					}(r.req)
+					select {
+					case x := <-ch:
+						r.ans = append(r.ans, x)
+					case <-time.After(uxBound()):
+						atomic.AddInt32(&uxHangs, 1)
+						r.pending = ch
+						step.Dump += "Result() did not return although quit is closed\n" + uxDump()
+					}
 				}
 			}
 			if e.pc == uxIdle {
@@ -789,6 +843,9 @@ func TestVerifUtxoScanReplay(t *testing.T) {
 	pf, of := os.Getenv("VERIF_PATHS"), os.Getenv("VERIF_OUT")
 	if pf == "" || of == "" {
 		t.Skip("VERIF_PATHS / VERIF_OUT not set")
+	}
+	if err := json.Unmarshal([]byte(os.Getenv("VERIF_UX_CHAINS")), &uxTable); err != nil {
+		t.Fatalf("VERIF_UX_CHAINS: %v", err)
 	}
 	in, err := os.Open(pf)
 	if err != nil {
